@@ -131,6 +131,8 @@ impl Strategy for StepReplay {
 /// `k` more operations (or cannot run).
 pub struct Adversary {
     victim: usize,
+    /// the victim first completes this many operations undisturbed (it has "already used the crate")
+    warm: usize,
     k: usize,
     target: Option<usize>,
     others_done_at_start: usize,
@@ -147,6 +149,9 @@ impl Strategy for Adversary {
             .map(|(_, d)| *d)
             .sum();
         let victim_runnable = pt.runnable.contains(&self.victim);
+        if victim_runnable && pt.ops_done[self.victim] < self.warm {
+            return self.victim;
+        }
         // the victim only gets a step while it is inside an operation; outside others may run freely
         match self.target {
             None => {
@@ -355,6 +360,19 @@ impl Strategy for Until {
                 }
                 return pt.runnable[0];
             }
+            // "#k": exactly k steps of u
+            if let Some(k) = pat.strip_prefix('#') {
+                let k: usize = k.parse().unwrap_or(0);
+                if self.granted >= k {
+                    self.reached += 1;
+                    self.i += 1;
+                    self.hits = 0;
+                    self.granted = 0;
+                    continue;
+                }
+                self.granted += 1;
+                return u;
+            }
             // u is parked at pt.sites[u] (or not started yet: empty site)
             if !pat.is_empty() && site_matches(&pat, &pt.sites[u]) && (pt.cur == u || self.granted == 0) {
                 // arrival at the pattern: the first arrival counts also when the thread was already parked there
@@ -431,6 +449,7 @@ pub fn from_json(v: &Value, nthreads: usize) -> Box<dyn Strategy> {
         }),
         "adversary" => Box::new(Adversary {
             victim: v["victim"].as_u64().unwrap_or(0) as usize,
+            warm: v["warm"].as_u64().unwrap_or(0) as usize,
             k: v["k"].as_u64().unwrap_or(1) as usize,
             target: None,
             others_done_at_start: 0,
